@@ -412,7 +412,9 @@ class Interp:
         blocks = fn.blocks
         while True:
             if la is not None and bb == la['header']:
-                if visited_header: raise PathPruned()
+                if visited_header:
+                    if la.get('keep_back'): raise LoopBack(fn.name, {loc: dup(frame[loc][0]) for loc in la.get('back_observe', [])})
+                    raise PathPruned()
                 visited_header = True
                 for loc, mk in la['havoc'].items(): frame[loc] = [mk(self)]
                 self.observed[fn.name] = {loc: dup(frame[loc][0]) for loc in la.get('observe', [])}
